@@ -24,21 +24,21 @@ type catEntry struct {
 }
 
 var catalog = map[string]catEntry{
-	"aesgcm128_tink":  {"AesGcm", "symmetric", keyfactory.Params{"keySize": 16, "ivSize": 12, "tagSize": 16, "variant": "TINK"}, "aead"},
-	"aesgcm256_raw":   {"AesGcm", "symmetric", keyfactory.Params{"keySize": 32, "ivSize": 12, "tagSize": 16, "variant": "NO_PREFIX"}, "aead"},
-	"xchacha_crunchy": {"XChaCha20Poly1305", "symmetric", keyfactory.Params{"variant": "CRUNCHY"}, "aead"},
-	"aesctrhmac_tink": {"AesCtrHmac", "symmetric", keyfactory.Params{"aesKeySize": 32, "hmacKeySize": 32, "ivSize": 16, "hash": "SHA256", "tagSize": 32, "variant": "TINK"}, "aead"},
-	"hmac_tink":       {"Hmac", "symmetric", keyfactory.Params{"keySize": 32, "hash": "SHA256", "tagSize": 32, "variant": "TINK"}, "mac"},
-	"hmac_legacy":     {"Hmac", "symmetric", keyfactory.Params{"keySize": 32, "hash": "SHA512", "tagSize": 16, "variant": "LEGACY"}, "mac"},
-	"aescmac_raw":     {"AesCmac", "symmetric", keyfactory.Params{"keySize": 32, "tagSize": 16, "variant": "NO_PREFIX"}, "mac"},
-	"aessiv_tink":     {"AesSiv", "symmetric", keyfactory.Params{"keySize": 64, "variant": "TINK"}, "daead"},
-	"aessiv_raw":      {"AesSiv", "symmetric", keyfactory.Params{"keySize": 64, "variant": "NO_PREFIX"}, "daead"},
-	"hkdfprf":         {"HkdfPrf", "symmetric", keyfactory.Params{"keySize": 32, "hash": "SHA256", "saltSize": 8}, "prf"},
-	"jwthmac_kid":     {"JwtHmac", "symmetric", keyfactory.Params{"algorithm": "HS256", "kidStrategy": "BASE64_KEY_ID", "keySize": 32}, "jwtmac"},
-	"ecdsa_p256_tink": {"Ecdsa", "private", keyfactory.Params{"curve": "NIST_P256", "hash": "SHA256", "encoding": "DER", "variant": "TINK"}, "sig"},
-	"ed25519_raw":     {"Ed25519", "private", keyfactory.Params{"variant": "NO_PREFIX"}, "sig"},
-	"ed25519_legacy":  {"Ed25519", "private", keyfactory.Params{"variant": "LEGACY"}, "sig"},
-	"mldsa65_tink":    {"MlDsa", "private", keyfactory.Params{"instance": "ML_DSA_65", "variant": "TINK"}, "sig"},
+	"aesgcm128_tink":   {"AesGcm", "symmetric", keyfactory.Params{"keySize": 16, "ivSize": 12, "tagSize": 16, "variant": "TINK"}, "aead"},
+	"aesgcm256_raw":    {"AesGcm", "symmetric", keyfactory.Params{"keySize": 32, "ivSize": 12, "tagSize": 16, "variant": "NO_PREFIX"}, "aead"},
+	"xchacha_crunchy":  {"XChaCha20Poly1305", "symmetric", keyfactory.Params{"variant": "CRUNCHY"}, "aead"},
+	"aesctrhmac_tink":  {"AesCtrHmac", "symmetric", keyfactory.Params{"aesKeySize": 32, "hmacKeySize": 32, "ivSize": 16, "hash": "SHA256", "tagSize": 32, "variant": "TINK"}, "aead"},
+	"hmac_tink":        {"Hmac", "symmetric", keyfactory.Params{"keySize": 32, "hash": "SHA256", "tagSize": 32, "variant": "TINK"}, "mac"},
+	"hmac_legacy":      {"Hmac", "symmetric", keyfactory.Params{"keySize": 32, "hash": "SHA512", "tagSize": 16, "variant": "LEGACY"}, "mac"},
+	"aescmac_raw":      {"AesCmac", "symmetric", keyfactory.Params{"keySize": 32, "tagSize": 16, "variant": "NO_PREFIX"}, "mac"},
+	"aessiv_tink":      {"AesSiv", "symmetric", keyfactory.Params{"keySize": 64, "variant": "TINK"}, "daead"},
+	"aessiv_raw":       {"AesSiv", "symmetric", keyfactory.Params{"keySize": 64, "variant": "NO_PREFIX"}, "daead"},
+	"hkdfprf":          {"HkdfPrf", "symmetric", keyfactory.Params{"keySize": 32, "hash": "SHA256", "saltSize": 8}, "prf"},
+	"jwthmac_kid":      {"JwtHmac", "symmetric", keyfactory.Params{"algorithm": "HS256", "kidStrategy": "BASE64_KEY_ID", "keySize": 32}, "jwtmac"},
+	"ecdsa_p256_tink":  {"Ecdsa", "private", keyfactory.Params{"curve": "NIST_P256", "hash": "SHA256", "encoding": "DER", "variant": "TINK"}, "sig"},
+	"ed25519_raw":      {"Ed25519", "private", keyfactory.Params{"variant": "NO_PREFIX"}, "sig"},
+	"ed25519_legacy":   {"Ed25519", "private", keyfactory.Params{"variant": "LEGACY"}, "sig"},
+	"mldsa65_tink":     {"MlDsa", "private", keyfactory.Params{"instance": "ML_DSA_65", "variant": "TINK"}, "sig"},
 	"hpke_x25519_tink": {"Hpke", "private", keyfactory.Params{"kem": "DHKEM_X25519_HKDF_SHA256", "kdf": "HKDF_SHA256", "aead": "AES_128_GCM", "variant": "TINK"}, "hybrid"},
 	"ecies_p256_raw": {"Ecies", "private", keyfactory.Params{"curve": "NIST_P256", "hash": "SHA256", "pointFormat": "UNCOMPRESSED",
 		"dem": "AES128_GCM_RAW", "saltSize": 0, "variant": "NO_PREFIX"}, "hybrid"},
